@@ -36,16 +36,17 @@ def run_one(m):
         for prop in props:
             r = subprocess.run([os.path.join(VERIF, "bin", "check"), prop], env=env, capture_output=True, text=True)
             keys = re.findall(r"^FINDING (\S+)", r.stdout, re.M)
-            res[prop] = {"rc": r.returncode, "rules": sorted({k.split(":")[0] for k in keys}), "out": r.stdout[-600:] if r.returncode == 2 else ""}
+            nov = re.findall(r"^NO-VERDICT property=\S+ rule=(\S+)", r.stdout, re.M)
+            res[prop] = {"rc": r.returncode, "rules": sorted({k.split(":")[0] for k in keys}), "out": r.stdout[-600:] if r.returncode == 2 else "", "noverdict": sorted(set(nov))}
         ok = True
         why = []
-        if any(rr["rc"] == 2 for rr in res.values()):
-            return m["id"], "skipped", "no verdict on the mutated copy (does not build?): %s" % " ".join(rr["out"][-160:].replace("\n", " ") for rr in res.values() if rr["rc"] == 2), res
+        if any(rr["rc"] == 2 and not rr["noverdict"] for rr in res.values()):
+            return m["id"], "skipped", "infrastructure failure on the mutated copy (does not build?): %s" % " ".join(rr["out"][-160:].replace("\n", " ") for rr in res.values() if rr["rc"] == 2), res
         for x in m.get("expect", []):
             rr = res[x["prop"]]
             if rr["rc"] == 2:
                 ok = False
-                why.append("%s: no verdict (%s)" % (x["prop"], rr["out"][-200:].replace("\n", " ")))
+                why.append("%s: NO-VERDICT by %s instead of a violation by %s" % (x["prop"], rr["noverdict"], x["rule"]))
             elif rr["rc"] != 1 or x["rule"] not in rr["rules"]:
                 ok = False
                 why.append("%s: expected %s to fire, got rc=%d rules=%s" % (x["prop"], x["rule"], rr["rc"], rr["rules"]))
